@@ -4219,7 +4219,13 @@ func (t *Terminal) executeCommand(template string, forcePlus bool, background bo
 			out, _ := cmd.StdoutPipe()
 			reader := bufio.NewReader(out)
 			if cmd.Start() == nil {
-				t.setForegroundKiller(func() { cmd.Process.Kill() })
+				t.setForegroundKiller(func() {
+					cmd.Process.Kill()
+					// A child of the killed shell may still hold the other end of the pipe
+					if out != nil {
+						out.Close()
+					}
+				})
 			}
 			if firstLineOnly {
 				line, _ = reader.ReadString('\n')
